@@ -114,6 +114,8 @@ func ls2Shapes() []ls2Shape {
 		{7, 4, 0, 1, 0, []int{32}, 0, 0},
 		{7, 4, 0, 0, 0, []int{32}, 1, 0},
 		{7, 4, 0, -1, 10, []int{32}, 1, 0},
+		{7, 4, 0, -1, 0, []int{32}, 7, 0},
+		{7, 4, 0, -1, 0, []int{32}, 16, 1},
 	}
 	if nd.Thorough() {
 		sh = append(sh,
@@ -209,6 +211,8 @@ func metaShapes() []metaShape {
 		{-1, 0, 0, -1, 0, []int{0, 0}, 0},
 		{1, 0, 2, -1, 0, []int{0}, 0},
 		{7, 4, 0, 0, 0, []int{0}, 0},
+		{7, 4, 0, -1, 0, []int{5, 0}, 0},
+		{7, 4, 0, -1, 0, []int{0, 0, 0, 0, 0, 0, 0}, 0},
 	}
 	if nd.Thorough() {
 		sh = append(sh,
@@ -308,9 +312,11 @@ func lsShapes() []lsShape {
 		{1, 0, 0, 2, 0},
 		{7, 4, 0, 1, 0},
 		{7, 0, 3, 1, 1},
+		{7, 0, 0, 16, 0},
+		{7, 0, 0, 6, 0},
 	}
 	if nd.Thorough() {
-		sh = append(sh, lsShape{2, 0, 0, 1, 0}, lsShape{0, 0, 0, 2, 0}, lsShape{7, 0, 0, 16, 0}, lsShape{11, 4, 0, 1, 0})
+		sh = append(sh, lsShape{2, 0, 0, 1, 0}, lsShape{0, 0, 0, 2, 0}, lsShape{7, 0, 0, 11, 0}, lsShape{11, 4, 0, 1, 0})
 	}
 	return sh
 }
